@@ -171,6 +171,13 @@ func (m *C04Mon) probe(h *Hand, s *pokerface.GameState) {
 			probes = append(probes, probe{Op{Name: "payblinds", Seat: i}, "probes_seat_forced_bet_wrong_phase"})
 		}
 	}
+	// seat indices that are not in this hand (an engine object that served a bigger table before may
+	// still know them)
+	for _, i := range []int{seatMinusOne, n, n + 1, n + 3} {
+		for _, a := range []string{"pass", "check", "fold", "call", "allin", "bet"} {
+			probes = append(probes, probe{Op{Name: a, Seat: i, Amt: amounts()}, "probes_seat_not_in_hand"})
+		}
+	}
 	before := snapJSON(s)
 	for _, p := range probes {
 		var err error
@@ -193,6 +200,9 @@ func (m *C04Mon) probe(h *Hand, s *pokerface.GameState) {
 			who = "table"
 		} else if ev == "RoundStarted" && p.op.Seat == s.Status.CurrentPlayer {
 			who = "current"
+		}
+		if p.op.Seat < -1 || p.op.Seat >= n {
+			who = "absent"
 		}
 		if err == nil {
 			h.Trace = append(h.Trace, TraceStep{Op: p.op, Err: "accepted", Kind: "probe"})
